@@ -46,6 +46,7 @@ def strategy(draw, tier="quick"):
         st.fixed_dictionaries({"op": st.just("delete"), "b": b, "k": st.integers(0, 99)}),
         st.fixed_dictionaries({"op": st.just("bulk"), "b": b, "n": st.one_of(st.integers(0, 5), st.integers(0, 5), st.sampled_from([49, 51, 100, 101, 120, 150, 230])), "seed": st.integers(0, 999), "upd": st.integers(0, 2)}),
         st.fixed_dictionaries({"op": st.just("read"), "b": b, "kind": st.sampled_from(["get", "count"])}),
+        st.fixed_dictionaries({"op": st.just("elsewhere"), "b": b, "v": st.integers(0, 9)}),  # a second store in the same process, on another file, reads and writes
         st.fixed_dictionaries({"op": st.just("extend_last"), "b": b, "dur_s": st.integers(1, 30)}),  # heartbeat: same start, longer
         st.fixed_dictionaries({"op": st.just("extend_last"), "b": b, "dur_s": st.integers(1, 30)}),
     )
